@@ -43,6 +43,11 @@ def obligations(tier):
     p = dict(base, crit="finished", crit_n=3, T=3, backend_fault_max=3, max_fail=0, decisions=["CONTINUE", "STOP"])
     obs.append(Ob("C12.d[backend-fault-injected]", "props.c01:h_loop", p, bounds=dict(W=2, T=3, R=1, K=1, failing_schedule_call="1..3"),
                   goals=("end", "backend-fault-injected"), split=(("fault_at", (0, 1, 2)),), budget_s=2400))
+    # a metric threshold criterion; reports may be NaN (diverged runs), in the same poll as a value that crosses the threshold
+    p = dict(base, crit="min_metric", crit_n=0, R=1, max_fail=0, decisions=["CONTINUE", "STOP"])
+    obs.append(Ob("C12.f[min_metric_value,W=2,T=2,R=1]", "props.c01:h_loop", p,
+                  bounds=dict(W=2, T=2, R=1, K=1, criterion="min_metric_value={m: 0.05}", values="each report one of 0.5 / 0.04 / NaN (symbolic)", decisions="CONTINUE/STOP"),
+                  goals=("end", "criterion-reached", "exhausted"), split=(("v_0_0_1", (0, 1, 2)), ("v_1_0_1", (0, 1, 2)), ("dec_3", (0, 1))), budget_s=2400))
     if not quick:
         for crit in ("finished", "started"):
             p = dict(base, crit=crit, R=2, W=2, T=2)
